@@ -137,6 +137,18 @@ macro_rules! own_impl {
                     "edges" | "order" => { let f = take_result(w, &json!({"kind": name, "root": arg(1), "t": 0}))?; w.results.push(f); }
                     "path" => { let f = take_result(w, &json!({"kind": "path", "root": arg(1), "t": arg(2)}))?; w.results.push(f); }
                     "dropres" => { w.results.remove(arg(1) - 1); }
+                    "lookup" => {
+                        // every key look-up the node offers, results dropped at once
+                        let (u, v) = (arg(1), arg(2) as u32);
+                        let hu = w.handles[u - 1][0].clone();
+                        let connected = hu.is_connected(&v);
+                        own_lookup!($directed, hu, v);
+                        if connected {
+                            if let Some(hv) = w.handles[(v - 1) as usize].first().cloned() {
+                                if hu.try_connect(&hv, 1).is_ok() { return Err("try_connect succeeded although is_connected".into()); }
+                            }
+                        }
+                    }
                     _ => return Err(format!("unknown action {}", name)),
                 }
                 Ok(())
@@ -227,6 +239,11 @@ macro_rules! own_impl {
                    "lock_points_seen": LOCK_POINTS.load(std::sync::atomic::Ordering::Relaxed)})
         }
     };
+}
+
+macro_rules! own_lookup {
+    (true, $h:ident, $v:ident) => { let _ = $h.find_outbound(&$v); let _ = $h.find_inbound(&$v); };
+    (false, $h:ident, $v:ident) => { let _ = $h.find_adjacent(&$v); };
 }
 
 macro_rules! own_order {
